@@ -155,6 +155,23 @@ def run(prop: str, tier: str) -> int:
         cases.append({"history": [{"s": "qubit", "h": "Q1"}, {"s": "flush"}, {"s": "rot", "g": "rot_z", "q": "Q1", "n": "t1", "d": 1}, {"s": "compile"},
                                   {"s": "array", "h": "A1", "len": 1, "init": [0]}, {"s": "meas", "q": "Q1", "inplace": True, "into": fut("A1", c(0))},
                                   {"s": "commit", "obj": 1, "vals": [0]}, {"s": "flush"}, {"s": "read", "loc": {"k": "arr", "a": "A1"}}], "meas": [1, 0]})
+        # the same templated operations pre-compiled again and again on a long-lived qubit, with different values
+        for vals in ([3, 5, 0, 7], [1, 1, 16, 1], [255, 0]):
+            h = [{"s": "qubit", "h": "Q1"}, {"s": "array", "h": "A1", "len": 1, "init": [0]}, {"s": "flush"}]
+            for k_, v_ in enumerate(vals):
+                h += [{"s": "rot", "g": "rot_z", "q": "Q1", "n": "t1", "d": 3}, {"s": "rot", "g": "rot_x", "q": "Q1", "n": 1, "d": 1},
+                      {"s": "compile"}, {"s": "commit", "obj": k_ + 1, "vals": [v_]}]
+            h += [{"s": "meas", "q": "Q1", "inplace": True, "into": fut("A1", c(0))}, {"s": "flush"}, {"s": "read", "loc": {"k": "arr", "a": "A1"}}]
+            cases.append({"history": h, "meas": [1, 0]})
+        # many pre-compiled subroutines that keep an outcome in a register, no flush in between: compile must leave the
+        # connection as a flush does, also for the measurement registers
+        h = [{"s": "qubit", "h": "Q1"}, {"s": "flush"}]
+        for k_ in range(20):
+            h += [{"s": "rot", "g": "rot_z", "q": "Q1", "n": "t1", "d": 2}, {"s": "gate", "g": "h", "qs": ["Q1"]},
+                  {"s": "meas", "q": "Q1", "inplace": True, "into": {"k": "newreg", "h": f"F{k_ + 1}"}},
+                  {"s": "compile"}, {"s": "commit", "obj": k_ + 1, "vals": [k_ % 4]}]
+        h += [{"s": "flush"}]
+        cases.append({"history": h, "meas": [1, 0] * 12})
         while len(cases) < n:
             cse = gen_history(rng)
             if commits_in_compile_order(cse["history"]):
